@@ -124,6 +124,12 @@ def make_las(kind):
         return las
     if kind == "text-curve":
         return lasio.read(BASE.replace("10.5", "abc").replace("30.5", "def"))
+    if kind == "surrogate":
+        # header text that no codec can encode (a lone surrogate, as left by encoding_errors='surrogateescape')
+        las = lasio.read(BASE)
+        las.well["WELL"].value = "bad \udcff text"
+        las.params["P1"].descr = "\udc80"
+        return las
     if kind == "scratch":
         las = lasio.LASFile()
         las.append_curve("DEPT", np.arange(5.0), unit="m")
@@ -163,6 +169,18 @@ WRITE_SCENARIOS = [
     ("write:stringio:missing-vers", "write", "missing-vers", {}, "stringio"),
     ("to_csv:stringio:bad-dialect", "to_csv", "read", {"delimiter": "toolong"}, "stringio"),
     ("write:fileobj:bad-fmt", "write", "read", {"fmt": "%q"}, "fileobj"),
+    # text that cannot be encoded, to a path and to the caller's file
+    ("write:path:unencodable", "write", "surrogate", {}, "path"),
+    ("write:path:unencodable-wrap", "write", "surrogate", {"wrap": True, "version": 1.2}, "path"),
+    ("write:fileobj:unencodable", "write", "surrogate", {}, "fileobj"),
+    ("to_csv:path:unencodable-header", "to_csv", "surrogate", {"mnemonics": ["a\udcff", "b"], "units": ["u", "v"]}, "path"),
+    # a pathlib.Path where a file name or a file object is expected
+    ("write:pathlib:default", "write", "read", {}, "pathlib"),
+    ("write:pathlib:bad-version", "write", "read", {"version": 3.0}, "pathlib"),
+    ("write:pathlib:missing-vers", "write", "missing-vers", {}, "pathlib"),
+    ("to_csv:pathlib:default", "to_csv", "read", {}, "pathlib"),
+    ("to_csv:pathlib:bad-dialect", "to_csv", "read", {"delimiter": "toolong"}, "pathlib"),
+    ("write:bytespath:default", "write", "read", {}, "bytespath"),
 ]
 
 # two calls on the SAME LASFile: a path call (which may fail, by itself or by an injected fault) followed by a call
@@ -275,6 +293,10 @@ def run_once(name, inject_at):
             fo = io.StringIO()
             caller.append(fo)
             ref = fo
+        elif target == "pathlib":
+            ref = pathlib.Path(path)
+        elif target == "bytespath":
+            ref = os.fsencode(path)
         else:
             ref = path
         las = obj
